@@ -34,6 +34,8 @@ def require_actions(ctx, res, label):
 def check_replay(ctx, go, name, needed, min_completed):
     rep = go.reports.get(name)
     if rep is None:
+        if ctx.violations:
+            return      # the code under test panicked; the engine recorded that as a violation
         ctx.broken("harness report %s missing" % name)
     cnt = rep.get("counters") or {}
     if rep.get("divergences"):
